@@ -201,6 +201,38 @@ func checkWindow(rp report, cs []bytecode.Type, failIP int) (clause, detail stri
 	return "", ""
 }
 
+// shownAs reports whether printed is an acceptable rendering of a value whose full rendering is
+// full: the full text, or a proper prefix of it of at least 8 bytes followed by "..." (how long
+// the report lets a value be, and whether it cuts on a byte or a character boundary, is the
+// report's choice; what it shows must be the value's own text).
+func shownAs(printed, full string) bool {
+	if printed == full {
+		return true
+	}
+	if !strings.HasSuffix(printed, "...") {
+		return false
+	}
+	p := printed[:len(printed)-3]
+	return len(p) >= 8 && len(p) < len(full) && strings.HasPrefix(full, p)
+}
+
+// shownList matches a printed ", "-separated list against the full renderings of its elements.
+func shownList(printed string, fulls []string) bool {
+	if len(fulls) == 0 {
+		return printed == ""
+	}
+	if len(fulls) == 1 {
+		return shownAs(printed, fulls[0])
+	}
+	// the first element ends at some ", " (renderings may contain ", " themselves: try each)
+	for i := 0; i+2 <= len(printed); i++ {
+		if printed[i:i+2] == ", " && shownAs(printed[:i], fulls[0]) && shownList(printed[i+2:], fulls[1:]) {
+			return true
+		}
+	}
+	return false
+}
+
 // checkReport compares a real outcome's report with the model's error.
 func checkReport(o sess.Outcome, re *model.RunError, cs []bytecode.Type) (clause, detail string) {
 	rp, err := parseReport(o.Report)
@@ -240,10 +272,10 @@ func checkReport(o sess.Outcome, re *model.RunError, cs []bytecode.Type) (clause
 	}
 	// operands printed must be a suffix of the model's operands, in order
 	if rp.Operands != "" {
-		full := strings.Join(re.Operands, ", ")
+		full := strings.Join(re.FullOps, ", ")
 		ok := false
-		for k := 0; k < len(re.Operands); k++ {
-			if strings.Join(re.Operands[k:], ", ") == rp.Operands {
+		for k := 0; k < len(re.FullOps); k++ {
+			if shownList(rp.Operands, re.FullOps[k:]) {
 				ok = true
 			}
 		}
@@ -263,8 +295,12 @@ func checkReport(o sess.Outcome, re *model.RunError, cs []bytecode.Type) (clause
 			if ms[fi].Name != rs[fi].Name {
 				return "report-frame-name", fmt.Sprintf("context %d frame %d: report says %s(), active call was %s() (innermost first: %v)", ci, fi, rs[fi].Name, ms[fi].Name, ms)
 			}
-			if strings.Join(ms[fi].Args, "|") != strings.Join(rs[fi].Args, "|") {
-				return "report-frame-args", fmt.Sprintf("context %d frame %d %s(): report prints args %q, current parameter values are %q", ci, fi, ms[fi].Name, rs[fi].Args, ms[fi].Args)
+			argsOK := len(ms[fi].Full) == len(rs[fi].Args)
+			for ai := 0; argsOK && ai < len(rs[fi].Args); ai++ {
+				argsOK = shownAs(rs[fi].Args[ai], ms[fi].Full[ai])
+			}
+			if !argsOK {
+				return "report-frame-args", fmt.Sprintf("context %d frame %d %s(): report prints args %q, current parameter values are %q", ci, fi, ms[fi].Name, rs[fi].Args, ms[fi].Full)
 			}
 		}
 	}
@@ -374,6 +410,24 @@ var c19Sites = []c19Site{
 	}, true},
 	{"generator-with-percent-parameters", func(e func(string) string, t string) ([]string, string) {
 		return []string{"ge = (c, tag) -> {\nyield 1\nz = " + e("c") + "\nyield 2\n}", "us = (c, tag) -> {\nw = 0\nfor e <- ge(c, [tag + \"%v\", \"%!\"]) {\nw = w + e\n}\nw\n}"}, "us(" + t + ", \"%d%%\")"
+	}, true},
+	// a generator at top level (no call frame below it) that runs in a recycled context and fails
+	// before its first yield
+	{"top-level-second-loop-early-failure", func(e func(string) string, t string) ([]string, string) {
+		return []string{"gf = (c, k) -> {\nz = " + e("c") + "\nyield k\n}"}, "{\nfor ta <- fromto(0, 2) {\ntb = ta\n}\nfor tv <- gf(" + t + ", 1) {\ntw = tv\n}\n}"
+	}, true},
+	{"top-level-nested-loops-second-round", func(e func(string) string, t string) ([]string, string) {
+		return []string{"gk = (c, k) -> {\nif k > 0 {\nz = " + e("c") + "\n}\nyield k\n}"}, "for ta <- fromto(0, 3) {\nfor tv <- gk(" + t + ", ta) {\ntw = tv\n}\n}"
+	}, true},
+	// a failure beneath a call made from a loop condition, not on its first evaluation
+	{"while-condition-call", func(e func(string) string, t string) ([]string, string) {
+		return []string{"more = (c, k) -> {\nif k >= 2 {\nz = " + e("c") + "\n}\nk < 5\n}", "scan = (c) -> {\nk = 0\nwhile more(c, k) {\nk = k + 1\n}\nk\n}"}, "scan(" + t + ")"
+	}, true},
+	{"while-condition-call-value-used", func(e func(string) string, t string) ([]string, string) {
+		return []string{"more = (c, k) -> {\nif k >= 1 {\nz = " + e("c") + "\n}\nk < 5\n}", "scan = (c) -> {\nk = 0\nwhile more(c, k) {\nk = k + 1\nk * 2\n}\n}", "outer = (c) -> scan(c)"}, "outer(" + t + ")"
+	}, true},
+	{"multi-byte-string-parameters", func(e func(string) string, t string) ([]string, string) {
+		return []string{"fp = (c, label, note) -> " + e("c"), "fq = (c, label) -> fp(c, label + \"語\", [\"ab日本語のテキスト\", \"é\"])"}, "fq(" + t + ", \"ab日本語のテキスト\")"
 	}, true},
 	{"top-level-loop-generator", func(e func(string) string, t string) ([]string, string) {
 		return []string{"ge = (c) -> {\nyield 1\nz = " + e("c") + "\nyield 2\n}"}, "for tv <- ge(" + t + ") {\ntw = tv\n}"
